@@ -88,6 +88,10 @@ return _1100 + _11" with
 Proof. vm_compute. split; reflexivity. Qed.
 
 Definition tree_of (src : list N) : script := match parse src with Ok c => c | _ => [] end.
+(* the size hypothesis of the refinement theorems on a concrete script: 1 + 3 shifts + 2 additions *)
+Example C03_cost : script_cost (tree_of $"a = 1 << 3
+return a + [2] + (a << 0)") = 6.
+Proof. vm_compute. reflexivity. Qed.
 Example C03_denote_accepts :
   denote (tree_of $"a = 1 << 3
 return a + [2] + (a << 0)") = Ok ([1; 2; 4; 8; 12; 20], [(0, 0); (1, 1); (2, 2); (2, 3); (3, 4)]%nat).
